@@ -25,11 +25,16 @@ theorem evalR_render : ∀ (l : LVal) (ty : VTy) (tn : Option String) (r : RExpr
     simp only [render] at h; cases h; simp [evalR, absL, pos]
   | .nested sup v, ty, tn, r, h => by
     simp only [render] at h
-    cases hv : render title enumId ty tn v with
-    | none => simp [hv] at h
-    | some r' =>
-      simp [hv] at h; subst h
-      simp [absL, evalR_render v ty tn r' hv]
+    split at h
+    · rename_i fs
+      simp only [Option.map_eq_some_iff] at h
+      obtain ⟨a, ha, rfl⟩ := h
+      simp [absL, evalR_render (.struct fs) ty _ a ha]
+    · cases hv : render title enumId ty tn v with
+      | none => simp [hv] at h
+      | some r' =>
+        simp [hv] at h; subst h
+        simp [absL, evalR_render v ty tn r' hv]
   | .arr xs, ty, tn, r, h => by
     simp only [render] at h
     split at h
@@ -94,7 +99,13 @@ theorem evalR_renderAssignment (name : Option String) (body : VTy) (l : LVal) (r
   cases l with
   | atom a => simp [renderAssignment] at h
   | struct fs => exact evalR_render title enumId _ _ _ _ h
-  | choice a v => exact evalR_render title enumId _ _ _ _ h
+  | choice a v =>
+    simp only [renderAssignment] at h
+    split at h
+    · exact evalR_render title enumId _ _ _ _ h
+    · simp only [Option.map_eq_some_iff] at h
+      obtain ⟨r', hr', rfl⟩ := h
+      rw [hw]; exact evalR_render title enumId _ _ _ _ hr'
   | nested sup v =>
     simp only [renderAssignment] at h
     cases hv : render title enumId body (sup.getLast?.map title) (.nested sup v) with
